@@ -69,3 +69,144 @@ Proof.
   - vm_compute. reflexivity.
   - exact Hw.
 Qed.
+
+Lemma lsm_reified : { t : tree (option Z) | forall w, eval no_env None t w = dec_thumb_load_store_multiple w }.
+Proof. reify_opt dec_thumb_load_store_multiple no_env. Defined.
+Theorem dec_thumb32_lsm_table w : 0 <= w < 2 ^ 32 ->
+  dec_thumb_load_store_multiple w = eval_leaf no_env None (lookup t32_lsm_table (LRet None) w) w.
+Proof.
+  intros Hw. rewrite <- (proj2_sig lsm_reified w).
+  apply (decode_correct 32%nat optZ_eqb optZ_eqb_sound no_env None t32_lsm_table (LRet None) (proj1_sig lsm_reified) 400).
+  - vm_compute. reflexivity.
+  - exact Hw.
+Qed.
+
+Lemma dual_reified : { t : tree (option Z) | forall w, eval no_env None t w = dec_thumb_load_store_dual_load_store_exclusive_table_branch w }.
+Proof. reify_opt dec_thumb_load_store_dual_load_store_exclusive_table_branch no_env. Defined.
+Theorem dec_thumb32_dual_table w : 0 <= w < 2 ^ 32 ->
+  dec_thumb_load_store_dual_load_store_exclusive_table_branch w = eval_leaf no_env None (lookup t32_dual_table (LRet None) w) w.
+Proof.
+  intros Hw. rewrite <- (proj2_sig dual_reified w).
+  apply (decode_correct 32%nat optZ_eqb optZ_eqb_sound no_env None t32_dual_table (LRet None) (proj1_sig dual_reified) 400).
+  - vm_compute. reflexivity.
+  - exact Hw.
+Qed.
+
+Lemma sts_reified : { t : tree (option Z) | forall w, eval no_env None t w = dec_thumb_store_single_data_item w }.
+Proof. reify_opt dec_thumb_store_single_data_item no_env. Defined.
+Theorem dec_thumb32_sts_table w : 0 <= w < 2 ^ 32 ->
+  dec_thumb_store_single_data_item w = eval_leaf no_env None (lookup t32_sts_table (LRet None) w) w.
+Proof.
+  intros Hw. rewrite <- (proj2_sig sts_reified w).
+  apply (decode_correct 32%nat optZ_eqb optZ_eqb_sound no_env None t32_sts_table (LRet None) (proj1_sig sts_reified) 400).
+  - vm_compute. reflexivity.
+  - exact Hw.
+Qed.
+
+Lemma ldw_reified : { t : tree (option Z) | forall w, eval no_env None t w = dec_thumb_load_word w }.
+Proof. reify_opt dec_thumb_load_word no_env. Defined.
+Theorem dec_thumb32_ldw_table w : 0 <= w < 2 ^ 32 ->
+  dec_thumb_load_word w = eval_leaf no_env None (lookup t32_ldw_table (LRet None) w) w.
+Proof.
+  intros Hw. rewrite <- (proj2_sig ldw_reified w).
+  apply (decode_correct 32%nat optZ_eqb optZ_eqb_sound no_env None t32_ldw_table (LRet None) (proj1_sig ldw_reified) 400).
+  - vm_compute. reflexivity.
+  - exact Hw.
+Qed.
+
+Lemma dpr_reified : { t : tree (option Z) | forall w, eval t32_dpr_env None t w = dec_thumb_data_processing_register w }.
+Proof. reify_opt dec_thumb_data_processing_register t32_dpr_env. Defined.
+Theorem dec_thumb32_dpr_table w : 0 <= w < 2 ^ 32 ->
+  dec_thumb_data_processing_register w = eval_leaf t32_dpr_env None (lookup t32_dpr_table (LRet None) w) w.
+Proof.
+  intros Hw. rewrite <- (proj2_sig dpr_reified w).
+  apply (decode_correct 32%nat optZ_eqb optZ_eqb_sound t32_dpr_env None t32_dpr_table (LRet None) (proj1_sig dpr_reified) 400).
+  - vm_compute. reflexivity.
+  - exact Hw.
+Qed.
+
+Lemma mul_reified : { t : tree (option Z) | forall w, eval no_env None t w = dec_thumb_multiply_multiply_accumulate_and_absolute_difference w }.
+Proof. reify_opt dec_thumb_multiply_multiply_accumulate_and_absolute_difference no_env. Defined.
+Theorem dec_thumb32_mul_table w : 0 <= w < 2 ^ 32 ->
+  dec_thumb_multiply_multiply_accumulate_and_absolute_difference w = eval_leaf no_env None (lookup t32_mul_table (LRet None) w) w.
+Proof.
+  intros Hw. rewrite <- (proj2_sig mul_reified w).
+  apply (decode_correct 32%nat optZ_eqb optZ_eqb_sound no_env None t32_mul_table (LRet None) (proj1_sig mul_reified) 400).
+  - vm_compute. reflexivity.
+  - exact Hw.
+Qed.
+
+Lemma lmul_reified : { t : tree (option Z) | forall w, eval no_env None t w = dec_thumb_long_multiply_long_multiply_accumulate_and_divide w }.
+Proof. reify_opt dec_thumb_long_multiply_long_multiply_accumulate_and_divide no_env. Defined.
+Theorem dec_thumb32_lmul_table w : 0 <= w < 2 ^ 32 ->
+  dec_thumb_long_multiply_long_multiply_accumulate_and_divide w = eval_leaf no_env None (lookup t32_lmul_table (LRet None) w) w.
+Proof.
+  intros Hw. rewrite <- (proj2_sig lmul_reified w).
+  apply (decode_correct 32%nat optZ_eqb optZ_eqb_sound no_env None t32_lmul_table (LRet None) (proj1_sig lmul_reified) 400).
+  - vm_compute. reflexivity.
+  - exact Hw.
+Qed.
+
+Lemma ldh_reified : { t : tree (option Z) | forall w, eval no_env None t w = dec_thumb_load_halfword_memory_hints w }.
+Proof. reify_opt dec_thumb_load_halfword_memory_hints no_env. Defined.
+Theorem dec_thumb32_ldh_table w : 0 <= w < 2 ^ 32 -> in_domains w rt_not_pc ->
+  dec_thumb_load_halfword_memory_hints w = eval_leaf no_env None (lookup t32_ldh_table (LRet None) w) w.
+Proof.
+  intros Hw [s [Hs Hd]]. rewrite <- (proj2_sig ldh_reified w).
+  assert (G : forallb (fun s => check2 32%nat optZ_eqb t32_ldh_table (LRet None) 400 (proj1_sig ldh_reified) (cube_of 32%nat s)) rt_not_pc = true)
+    by (vm_compute; reflexivity).
+  rewrite forallb_forall in G. specialize (G s Hs).
+  apply (decode_correct_cube 32%nat optZ_eqb optZ_eqb_sound no_env None t32_ldh_table (LRet None) (proj1_sig ldh_reified) 400 (cube_of 32%nat s) G).
+  apply inc_cube_of; assumption.
+Qed.
+
+Definition no_env_res : list (Z -> res (option Z)) := [].
+Lemma ldb_reified : { t : tree (res (option Z)) | forall w, eval no_env_res (Val None) t w = dec_thumb_load_byte_memory_hints w }.
+Proof.
+  eexists. intros w. unfold dec_thumb_load_byte_memory_hints. cbv zeta.
+  match goal with |- eval _ _ ?T w = ?rhs => let e := eval unfold no_env_res in no_env_res in let t := reify_t (res (option Z)) w e rhs in unify T t end.
+  reflexivity.
+Defined.
+Theorem dec_thumb32_ldb_table w : 0 <= w < 2 ^ 32 -> in_domains w rt_not_pc ->
+  dec_thumb_load_byte_memory_hints w = eval_leaf no_env_res (Val None) (lookup t32_ldb_table (LRet (Val None)) w) w.
+Proof.
+  intros Hw [s [Hs Hd]]. rewrite <- (proj2_sig ldb_reified w).
+  assert (G : forallb (fun s => check2 32%nat res_eqb t32_ldb_table (LRet (Val None)) 400 (proj1_sig ldb_reified) (cube_of 32%nat s)) rt_not_pc = true)
+    by (vm_compute; reflexivity).
+  rewrite forallb_forall in G. specialize (G s Hs).
+  apply (decode_correct_cube 32%nat res_eqb res_eqb_sound no_env_res (Val None) t32_ldb_table (LRet (Val None)) (proj1_sig ldb_reified) 400 (cube_of 32%nat s) G).
+  apply inc_cube_of; assumption.
+Qed.
+
+Lemma pas_reified : { t : tree (option Z) | forall w, eval no_env None t w = dec_thumb_parallel_addition_and_subtraction_signed w }.
+Proof. reify_opt dec_thumb_parallel_addition_and_subtraction_signed no_env. Defined.
+Theorem dec_thumb32_pas_table w : 0 <= w < 2 ^ 32 ->
+  dec_thumb_parallel_addition_and_subtraction_signed w = eval_leaf no_env None (lookup t32_pas_table (LRet None) w) w.
+Proof.
+  intros Hw. rewrite <- (proj2_sig pas_reified w).
+  apply (decode_correct 32%nat optZ_eqb optZ_eqb_sound no_env None t32_pas_table (LRet None) (proj1_sig pas_reified) 400).
+  - vm_compute. reflexivity.
+  - exact Hw.
+Qed.
+
+Lemma pau_reified : { t : tree (option Z) | forall w, eval no_env None t w = dec_thumb_parallel_addition_and_subtraction_unsigned w }.
+Proof. reify_opt dec_thumb_parallel_addition_and_subtraction_unsigned no_env. Defined.
+Theorem dec_thumb32_pau_table w : 0 <= w < 2 ^ 32 ->
+  dec_thumb_parallel_addition_and_subtraction_unsigned w = eval_leaf no_env None (lookup t32_pau_table (LRet None) w) w.
+Proof.
+  intros Hw. rewrite <- (proj2_sig pau_reified w).
+  apply (decode_correct 32%nat optZ_eqb optZ_eqb_sound no_env None t32_pau_table (LRet None) (proj1_sig pau_reified) 400).
+  - vm_compute. reflexivity.
+  - exact Hw.
+Qed.
+
+Lemma misc_reified : { t : tree (option Z) | forall w, eval no_env None t w = dec_thumb_miscellaneous_operations w }.
+Proof. reify_opt dec_thumb_miscellaneous_operations no_env. Defined.
+Theorem dec_thumb32_misc_table w : 0 <= w < 2 ^ 32 ->
+  dec_thumb_miscellaneous_operations w = eval_leaf no_env None (lookup t32_misc_table (LRet None) w) w.
+Proof.
+  intros Hw. rewrite <- (proj2_sig misc_reified w).
+  apply (decode_correct 32%nat optZ_eqb optZ_eqb_sound no_env None t32_misc_table (LRet None) (proj1_sig misc_reified) 400).
+  - vm_compute. reflexivity.
+  - exact Hw.
+Qed.
